@@ -162,17 +162,11 @@ func headerWrites(p *Prog, fn *ssa.Function) (buf ssa.Value, slots []codeSlot, p
 	}
 	buf = writes[0].Call.Args[0]
 	off := 0
+	var prevAnchor ssa.Instruction
 	for i, w := range writes {
 		if w.Call.Args[0] != buf {
 			problems = append(problems, fmt.Sprintf("write #%d goes to a different buffer", i+1))
 			continue
-		}
-		// straight-line: every write dominates the next and is not in a loop
-		if i > 0 && !InstrDominates(writes[i-1], w) {
-			problems = append(problems, fmt.Sprintf("write #%d is not on every path after write #%d (layout depends on the path)", i+1, i))
-		}
-		if InLoop(w) {
-			problems = append(problems, fmt.Sprintf("write #%d is inside a loop", i+1))
 		}
 		arg := w.Call.Args[1]
 		gb, ok := arg.(*ssa.Call)
@@ -180,6 +174,24 @@ func headerWrites(p *Prog, fn *ssa.Function) (buf ssa.Value, slots []codeSlot, p
 			problems = append(problems, fmt.Sprintf("write #%d does not take its bytes from a getbytes scalar view", i+1))
 			continue
 		}
+		// one write per element of a local array of constant length, in a loop over the whole
+		// array: the same as that many consecutive writes of the values stored in the array
+		vals := []ssa.Value{gb.Call.Args[0]}
+		var anchor ssa.Instruction = w
+		if InLoop(w) {
+			elems, hdr := unrollArrayLoop(w, gb.Call.Args[0])
+			if elems == nil {
+				problems = append(problems, fmt.Sprintf("write #%d is inside a loop", i+1))
+			} else {
+				vals = elems
+				anchor = hdr
+			}
+		}
+		// straight-line: every write dominates the next
+		if prevAnchor != nil && !InstrDominates(prevAnchor, anchor) {
+			problems = append(problems, fmt.Sprintf("write #%d is not on every path after write #%d (layout depends on the path)", i+1, i))
+		}
+		prevAnchor = anchor
 		callee := gb.Call.StaticCallee()
 		pt := callee.Signature.Params().At(0).Type()
 		size := int(sizes.Sizeof(pt))
@@ -187,11 +199,162 @@ func headerWrites(p *Prog, fn *ssa.Function) (buf ssa.Value, slots []codeSlot, p
 		if b, ok := pt.Underlying().(*types.Basic); ok && b.Info()&types.IsFloat != 0 {
 			isFloat = true
 		}
-		prov, plain := provenance(gb.Call.Args[0], fn.Params[0])
-		slots = append(slots, codeSlot{off, size, isFloat, prov, plain, w})
-		off += size
+		for _, v := range vals {
+			prov, plain := provenance(v, fn.Params[0])
+			slots = append(slots, codeSlot{off, size, isFloat, prov, plain, w})
+			off += size
+		}
 	}
 	return buf, slots, problems
+}
+
+// unrollArrayLoop: the write w sits in a loop that visits every element of a local array of
+// constant length N in index order and writes (a conversion of) the current element, v.  Returns
+// the N values stored into the array before the loop, in index order, and the loop's branch.
+func unrollArrayLoop(w *ssa.Call, v ssa.Value) ([]ssa.Value, ssa.Instruction) {
+	for {
+		if c, ok := v.(*ssa.Convert); ok {
+			v = c.X
+			continue
+		}
+		if c, ok := v.(*ssa.ChangeType); ok {
+			v = c.X
+			continue
+		}
+		break
+	}
+	var arr *ssa.Alloc
+	var idx ssa.Value
+	var snapshot ssa.Instruction // the load of the whole array (range over an array value)
+	switch x := v.(type) {
+	case *ssa.Index:
+		if ld, ok := x.X.(*ssa.UnOp); ok && ld.Op == token.MUL {
+			arr, _ = ld.X.(*ssa.Alloc)
+			snapshot = ld
+		}
+		idx = x.Index
+	case *ssa.UnOp:
+		if ia, ok := x.X.(*ssa.IndexAddr); ok && x.Op == token.MUL {
+			arr, _ = ia.X.(*ssa.Alloc)
+			idx = ia.Index
+		}
+	}
+	if arr == nil || idx == nil {
+		return nil, nil
+	}
+	at, ok := arr.Type().Underlying().(*types.Pointer).Elem().Underlying().(*types.Array)
+	if !ok {
+		return nil, nil
+	}
+	n := at.Len()
+	// the loop header: idx (or the phi it is derived from) is defined there; it ends in `idx < N`
+	idxInstr, ok := idx.(ssa.Instruction)
+	if !ok {
+		return nil, nil
+	}
+	hdr := idxInstr.Block()
+	iff, ok := hdr.Instrs[len(hdr.Instrs)-1].(*ssa.If)
+	if !ok {
+		return nil, nil
+	}
+	cmp, ok := iff.Cond.(*ssa.BinOp)
+	if !ok || cmp.Op != token.LSS || cmp.X != idx {
+		return nil, nil
+	}
+	if lim, isC := constInt(cmp.Y); !isC || lim != n {
+		return nil, nil
+	}
+	// index runs 0,1,2,...: phi [0, idx+1] tested directly, or phi [-1, next] with next = phi+1 tested
+	startsAtZero := false
+	switch x := idx.(type) {
+	case *ssa.Phi:
+		if len(x.Edges) == 2 {
+			for k, e := range x.Edges {
+				if c, isC := constInt(e); isC && c == 0 {
+					if inc, ok := x.Edges[1-k].(*ssa.BinOp); ok && inc.Op == token.ADD && inc.X == ssa.Value(x) {
+						if one, isC := constInt(inc.Y); isC && one == 1 {
+							startsAtZero = true
+						}
+					}
+				}
+			}
+		}
+	case *ssa.BinOp:
+		if phi, ok := x.X.(*ssa.Phi); ok && x.Op == token.ADD && phi.Block() == hdr && len(phi.Edges) == 2 {
+			if one, isC := constInt(x.Y); isC && one == 1 {
+				for k, e := range phi.Edges {
+					if c, isC := constInt(e); isC && c == -1 && phi.Edges[1-k] == ssa.Value(x) {
+						startsAtZero = true
+					}
+				}
+			}
+		}
+	}
+	if !startsAtZero {
+		return nil, nil
+	}
+	// the write runs once in every iteration: its block is inside the loop body and dominates
+	// every back edge; no other exit from the loop than the header's test
+	body := iff.Block().Succs[0]
+	if !(body == w.Block() || body.Dominates(w.Block())) {
+		return nil, nil
+	}
+	for _, b := range hdr.Parent().Blocks {
+		if !(b == body || body.Dominates(b)) {
+			continue
+		}
+		for _, s := range b.Succs {
+			if s == hdr {
+				if !(w.Block() == b || w.Block().Dominates(b)) {
+					return nil, nil
+				}
+			} else if !(s == body || body.Dominates(s)) {
+				return nil, nil // leaves the loop from the body (break / return)
+			}
+		}
+	}
+	// the elements: exactly one store per constant index, each before the loop (and before the
+	// snapshot load, if the loop ranges over a copy); no other use of the array
+	elems := make([]ssa.Value, n)
+	for _, ref := range *arr.Referrers() {
+		switch x := ref.(type) {
+		case *ssa.IndexAddr:
+			if x.Index == idx {
+				continue
+			}
+			k, isC := constInt(x.Index)
+			if !isC || k < 0 || k >= n {
+				return nil, nil
+			}
+			for _, r2 := range *x.Referrers() {
+				st, ok := r2.(*ssa.Store)
+				if !ok || st.Addr != ssa.Value(x) || elems[k] != nil {
+					return nil, nil
+				}
+				before := InstrDominates(st, iff)
+				if snapshot != nil {
+					before = InstrDominates(st, snapshot)
+				}
+				if !before {
+					return nil, nil
+				}
+				elems[k] = st.Val
+			}
+		case *ssa.UnOp:
+			if ssa.Instruction(x) != snapshot {
+				return nil, nil
+			}
+		case *ssa.DebugRef:
+		default:
+			return nil, nil
+		}
+	}
+	for _, e := range elems {
+		if e == nil {
+			return nil, nil
+		}
+	}
+	return elems, iff
 }
 
 // headerPuts extracts the layout of a header built in a fixed-length byte slice with
